@@ -4,10 +4,12 @@ import (
 	"bufio"
 	"bytes"
 	"context"
+	"crypto/tls"
 	"errors"
 	"fmt"
 	"net"
 	"net/http"
+	"net/http/httptrace"
 	"net/url"
 	"strings"
 	"sync"
@@ -194,6 +196,33 @@ func dialOver(cfg ConnCfg, tr *xport.ScriptConn) (*websocket.Conn, error) {
 	c, _, err := d.Dial("ws://example.com/", nil)
 	tr.OnWrite = nil
 	return c, err
+}
+
+// dialOverTraced is dialOver through DialContext with an httptrace.ClientTrace
+// in the context (every hook the library fires is set); it returns the number
+// of hook invocations.
+func dialOverTraced(cfg ConnCfg, tr *xport.ScriptConn) (*websocket.Conn, int, error) {
+	d := websocket.Dialer{
+		NetDialContext:    func(ctx context.Context, network, addr string) (net.Conn, error) { return tr, nil },
+		ReadBufferSize:    cfg.ReadBuf,
+		WriteBufferSize:   cfg.WriteBuf,
+		EnableCompression: cfg.Compress,
+	}
+	fired := 0
+	trace := &httptrace.ClientTrace{
+		GetConn:              func(string) { fired++ },
+		GotConn:              func(httptrace.GotConnInfo) { fired++ },
+		GotFirstResponseByte: func() { fired++ },
+		WroteRequest:         func(httptrace.WroteRequestInfo) { fired++ },
+		WroteHeaders:         func() { fired++ },
+		ConnectStart:         func(string, string) { fired++ },
+		ConnectDone:          func(string, string, error) { fired++ },
+		TLSHandshakeStart:    func() { fired++ },
+		TLSHandshakeDone:     func(tls.ConnectionState, error) { fired++ },
+	}
+	c, _, err := d.DialContext(httptrace.WithClientTrace(context.Background(), trace), "ws://example.com/", nil)
+	tr.OnWrite = nil
+	return c, fired, err
 }
 
 // NewConn creates a connection of the configured role over tr.  The
